@@ -180,3 +180,10 @@ package checks
 // not be used (its headers set) when it does.
 //@ func RuleLinkCheck.Check [C18]
 //@   safe nil-deref:Header
+
+// ---------------------------------------------------------------------------------------------
+// C02 (rule/label on recording rules): the labels a recording rule is checked against are its own merged with the
+// group's; the report must not assume that the rule has a `labels:` mapping of its own.
+//@ func LabelCheck.checkRecordingRule [C02]
+//@   requires entry.Rule.RecordingRule != nil
+//@   safe nil-deref:YamlMap nil-deref:Key
